@@ -47,6 +47,7 @@ pub fn profile() -> Profile {
     p.workgroup = 1;
     p.unused_structs = (0, 0);
     p.nonascii = 0;
+    p.keyword_names = 1;
     p
 }
 
@@ -74,7 +75,7 @@ pub fn judge_assert_numbers(sh: &Shader, o: &Opts, out: &Out) -> Result<(), Stri
             None => return Err(format!("no size assertion for host-shareable struct `{name}` (or not in the form size_of::<{name}>() == N)")),
         }
         for (f, off) in offs {
-            match find(&format!("std::mem::offset_of!({name},{f})")) {
+            match find(&format!("std::mem::offset_of!({name},{})", expect::rid(&f))) {
                 Some(n) if n == off as u64 => {}
                 Some(n) => return Err(format!("the offset assertion of `{name}.{f}` expects {n}; the WGSL offset of the member is {off}")),
                 None => return Err(format!("no offset assertion for `{name}.{f}`")),
